@@ -10,14 +10,15 @@ table = subprocess.run([sys.executable, os.path.join(V, "tools", "seeded_table.p
 sec = f'''
 ### 13.5 Seeded changes by independent sub-agents (`seeded/`)
 
-Three waves of fresh sub-agents (one agent per claimed property and wave, 27 agents) were given only the property text and
+Four waves of fresh sub-agents (one agent per claimed property and wave, 36 agents) were given only the property text and
 a scratch worktree of /repo and asked for two changes each that break the property, keep the suite green and need
-something specific to manifest. Waves b and c were additionally told which ideas earlier agents had produced (never what
+something specific to manifest. Waves b, c and d were additionally told which ideas earlier agents had produced (never what
 my checks look for) and pushed towards cooperating sites, state surviving between calls, rare branches, ordering
-dependence, error paths, boundary values and tolerance. Every change was taken in through `tools/intake_seeded.py`: the
+dependence, error paths, boundary values, tolerance, and unusual-but-legal use two calls below the named mechanisms. Every change was taken in through `tools/intake_seeded.py`: the
 patch applies to /repo HEAD, `demo.py` exits 1 with it and 0 without it, and the **full pinned suite still has all 246
 stable tests passing** with the change (`tools/baseline.py <scratch worktree>`); only then is it stored as
-`seeded/<name>/{{patch.diff,demo.py,notes.md,meta.json}}`. {n} changes were produced and {n} confirmed (C13_b2 had to be
+`seeded/<name>/{{patch.diff,demo.py,notes.md,meta.json}}`. {n} changes were confirmed; one more (C12_d1: `_remove_node`
+pairing edges by position) was rejected at intake because two stable tests fail with it (C13_b2 had to be
 re-applied by hand to lines that fix `118f47a` had rewritten in the meantime; it is stored as C13_b2p).
 `tools/run_seeded.py` applies each change to a scratch worktree, runs the quick check(s) with `GRAPHIQ_ROOT` pointing
 there (evidence and replays redirected), and records the outcome in `seeded/RESULTS_quick.json`; `--related` also runs the
